@@ -305,12 +305,6 @@ def directed(tier):
                     {'T_low': 1000.0, 'T_high': 6000.0, 'a': S.gen_nasa9_coeffs(rng, style='arbitrary')}]}
     sh = {'type': 'Shomate', 'name': 'sh', 'T_low': 298.0, 'T_high': 1500.0, 'units': 'J/mol/K', 'phase': 'S',
           'a': [30.092, 6.832514, 6.793435, -2.53448, 0.082139, -250.881, 223.3967, -241.8264]}
-    for sp in (n7, n9, sh):
-        for first in ('list', 'ndarray'):
-            kinds = [first, 'ndarray' if first == 'list' else 'list']
-            arrays = [_make_array(rng, sp, n, kind=kinds[n % 2], elem='int' if n % 7 == 3 else 'float')
-                      for n in range(1, 51)]
-            D.append(_case(rng, dict(sp), 'arbitrary', arrays=arrays, n_ivals=3))
     # pinned witnesses of the pre-findings: Nasa9.get_CpoR(T=500) (int) and get_CpoR(T=[500.]) (length 1)
     w = _case(rng, dict(n9), 'arbitrary', arrays=[{'kind': 'list', 'elem': 'float', 'T': [500.0]},
                                                   {'kind': 'ndarray', 'elem': 'float', 'T': [500.0]},
@@ -319,6 +313,12 @@ def directed(tier):
                                                   {'kind': 'ndarray', 'elem': 'int', 'T': [500]}])
     w['Ti'] = [500, 1000, 200, 6000]
     D.append(w)
+    for sp in (n7, n9, sh):
+        for first in ('list', 'ndarray'):
+            kinds = [first, 'ndarray' if first == 'list' else 'list']
+            arrays = [_make_array(rng, sp, n, kind=kinds[n % 2], elem='int' if n % 7 == 3 else 'float')
+                      for n in range(1, 51)]
+            D.append(_case(rng, dict(sp), 'arbitrary', arrays=arrays, n_ivals=3))
     # NASA-9: 1, 3, 4 segments, gaps of every kind
     for nseg in (1, 2, 3, 4):
         for gap in (False, True):
@@ -670,6 +670,14 @@ def _single_nasa9(ctx, obj, sp, model, Ts, Ti):
         except Exception:                                    # refactored container: boundary oracles decide
             return
         inside = [T for T in list(Ts) + list(Ti) if seg['T_low'] <= T <= seg['T_high']]
+        if i == 0 and inside:
+            # telemetry only: the segment object's docstring admits (N,) arrays, the property speaks
+            # of species; count how often a 2-element array is refused
+            import numpy as np
+            try:
+                sobj.get_HoRT(T=np.array([float(inside[0]), float(inside[0])]))
+            except Exception:
+                ctx.extra['SingleNasa9_array_T_refused'] = ctx.extra.get('SingleNasa9_array_T_refused', 0) + 1
         ints = [T for T in inside if isinstance(T, int)][:2]
         for T in inside[:3] + ints:
             ref = _ref_seg('Nasa9', seg['a'], T, ())
